@@ -119,7 +119,8 @@ class ScopeGen(object):
 
     def comprehension(self, sc, depth):
         # the first iterable is evaluated in the enclosing scope; the rest in the comprehension's
-        t = self.fresh('t')
+        # usually a fresh name; sometimes a name that also exists outside (it must not leak / hide it)
+        t = self.fresh('t') if self.rng.random() < 0.7 else self.rng.choice(self.pool)
         self.no_walrus = getattr(self, 'no_walrus', 0) + 1
         it = '[%s]' % self.expr(sc, depth + 1)
         self.no_walrus -= 1
